@@ -281,6 +281,19 @@ def run_session(job, emit):
     producer = {}     # (cid, name) -> (step index, op)
     layout = job.get('layout') or {}
     counters = OPS.install_cache_probes()
+    reach = None
+    if job.get('reach'):
+        # reach probe (audit runs only, selftest/reach.py): which dadi functions ran during the session
+        import sys
+        reach = set()
+
+        def _prof(fr, ev, arg):
+            if ev == 'call':
+                fn = fr.f_code.co_filename
+                i = fn.find('/dadi/')
+                if i >= 0:
+                    reach.add(fn[i + 6:] + ':' + fr.f_code.co_qualname)
+        sys.setprofile(_prof)
     for cid in job['order']:
         prog = job['clients'][cid]
         k = pos[cid]
@@ -425,4 +438,9 @@ def run_session(job, emit):
     sub = numpy.array([1e-310, 3e-320])
     fpenv = [bool(tiny * numpy.float64(1.0) != 0.0), bool((sub * 1.0 != 0.0).all()), bool(numpy.float64(2.2250738585072014e-308) / 4.0 != 0.0),
              float(numpy.sum(sub) / 1e-310)]
-    emit({'end': True, 'geterr': numpy.geterr(), 'fpenv': fpenv})
+    endf = {'end': True, 'geterr': numpy.geterr(), 'fpenv': fpenv}
+    if reach is not None:
+        import sys
+        sys.setprofile(None)
+        endf['reach'] = sorted(reach)
+    emit(endf)
